@@ -738,3 +738,10 @@ SPECS["C20"]["level_text"] += "; SampleAdapter._decode_element over the full 8-s
 # C19: the IIR class's state sizing / reset (plain-Python part of iir.pyx)
 SPECS["C19"]["contracts"] += ["lemma:iir_fresh_and_reset_state"]
 SPECS["C19"]["level_text"] += "; IirFilter: a new filter carries len(B)-1 past inputs and len(A)-1 past outputs, all zero, and get_remaining() resets it to exactly that state"
+
+# C06 / C10 / C05: the Roland image hands the routine table to every volume, appended pseudo-volume included; Roland names monitor
+for _p in ("C06", "C10", "C05"):
+    SPECS[_p]["contracts"] += ["smpl_extract.roland.s7xx.image:RolandS7xxImage.set_routines"]
+SPECS["C06"]["bounded"].append(("contracts.e2e_names", "e2e:roland_names"))
+SPECS["C06"]["level_text"] += ("; RolandS7xxImage.set_routines installs the naming table on every volume, the appended orphan pseudo-volume included; BOUNDED: Roland images with duplicate / unsafe / "
+                               "path-like performance names in volumes and among the orphans")
